@@ -22,6 +22,15 @@ fn widen<const N: usize>(x: &[u64; N]) -> [u64; W] {
     o
 }
 
+fn widen_slice(x: &[u64]) -> [u64; W] {
+    let mut o = [0u64; W];
+    let mut i = 0;
+    while i < x.len() && i < W {
+        o[i] = x[i];
+        i += 1;
+    }
+    o
+}
 fn modinv_contract_body<const LX: usize>(_b: &BigUint, m: &BigUint) -> Option<BigUint> {
     kani::assert(!vc::digits(m).is_empty(), "VERIF unsigned modinv reached with zero modulus");
     unsafe {
@@ -94,6 +103,7 @@ macro_rules! modinv_shape {
         #[kani::proof]
         #[kani::unwind(34)]
         #[kani::stub(crate::biguint::BigUint::modinv, $stub)]
+        #[kani::stub(crate::biguint::verif_common::symbolic, crate::biguint::verif_common::yes)]
         #[kani::stub(alloc::vec::Vec::shrink_to_fit, vc::noop_shrink)]
         #[kani::stub(core::arch::x86_64::_subborrow_u64, vc::stub_subborrow)]
         #[kani::stub(crate::biguint::subtraction::schoolbook_sub_assign_x86_64, vc::model_sub)]
@@ -104,6 +114,14 @@ macro_rules! modinv_shape {
             let m = mkint($nm, &m0);
             unsafe { GH_CALLS = 0; }
             let r = b.modinv(&m);
+            if !vc::symbolic() {
+                // native replay: the unsigned inverse comes from the real routine
+                match vc::mk_from(&b0).modinv(&vc::mk_from(&m0)) {
+                    Some(x) => unsafe { GH_SOME = true; GH_X = widen_slice(vc::digits(&x)); },
+                    None => unsafe { GH_SOME = false; },
+                }
+                unsafe { GH_CALLS = 1; }
+            }
             kani::assert(unsafe { GH_CALLS } == 1, "VERIF expected one unsigned modinv");
             let mabs = widen(&m0);
             match r {
@@ -126,6 +144,7 @@ macro_rules! modpow_shape {
         #[kani::proof]
         #[kani::unwind(34)]
         #[kani::stub(crate::biguint::BigUint::modpow, $stub)]
+        #[kani::stub(crate::biguint::verif_common::symbolic, crate::biguint::verif_common::yes)]
         #[kani::stub(alloc::vec::Vec::shrink_to_fit, vc::noop_shrink)]
         #[kani::stub(core::arch::x86_64::_subborrow_u64, vc::stub_subborrow)]
         #[kani::stub(crate::biguint::subtraction::schoolbook_sub_assign_x86_64, vc::model_sub)]
@@ -138,6 +157,10 @@ macro_rules! modpow_shape {
             let m = mkint($nm, &m0);
             unsafe { GH_CALLS = 0; }
             let v = b.modpow(&e, &m);
+            if !vc::symbolic() {
+                let x = vc::mk_from(&b0).modpow(&vc::mk_from(&e0), &vc::mk_from(&m0));
+                unsafe { GH_X = widen_slice(vc::digits(&x)); GH_CALLS = 1; }
+            }
             kani::assert(unsafe { GH_CALLS } == 1, "VERIF expected one unsigned modpow");
             let mabs = widen(&m0);
             kani::assert(int_canonical(&v), "VERIF result not canonical");
